@@ -67,7 +67,7 @@ type Fault struct {
 	Op     string `json:"op"`             // WriteTo | Read | SetReadDeadline | SetPacketFilter | Close
 	K      int    `json:"k"`              // 1-based call count (per handle and op)
 	Class  string `json:"class"`          // fatal | deadline | zero
-	Late   bool   `json:"late,omitempty"` // source Read only: the failure is returned when the call ends, not when it begins
+	Late   bool   `json:"late,omitempty"` // source Read, sink WriteTo (with write lag): the failure is returned when the call ends, not when it begins
 }
 
 // InjectedErr is the unique sentinel returned by a fired fatal fault.
@@ -381,12 +381,30 @@ func (s *SimSink) WriteTo(buf []byte, dst netip.AddrPort) error {
 		w.log(Event{Kind: "sink", Handle: s.idx, Op: "WriteTo", Data: raw, Note: "use-after-close"})
 		return os.ErrClosed
 	}
-	if f := w.fault("sink", s.idx, "WriteTo", s.nWrite); f != nil {
+	var lateW *Fault
+	if f := w.fault("sink", s.idx, "WriteTo", s.nWrite); f != nil && f.Late && w.WriteLag > 0 {
+		// the write blocks for its lag and fails when it ends; the packet never leaves
+		lateW = f
+	} else if f != nil {
 		err := w.fire(f)
 		if err == nil {
 			err = errors.New("short write")
 		}
 		w.log(Event{Kind: "sink", Handle: s.idx, Op: "WriteTo", Data: raw, Err: err.Error(), Dst: dst.String()})
+		return err
+	}
+	if lateW != nil {
+		w.mu.Unlock()
+		w.lagging.Add(1)
+		time.Sleep(w.WriteLag)
+		w.lagging.Add(-1)
+		w.prog.Add(1)
+		w.mu.Lock()
+		err := w.fire(lateW)
+		if err == nil {
+			err = errors.New("short write")
+		}
+		w.log(Event{Kind: "sink", Handle: s.idx, Op: "WriteTo", Data: raw, Err: err.Error(), Dst: dst.String(), Note: "failed at the end of the call"})
 		return err
 	}
 	p, perr := ValidateProbe(raw)
